@@ -9,6 +9,7 @@ Oracle: comments and literals extracted from input and output by the independent
         comments equal after the permitted normalisation, same order.  PARTIAL for comment bodies: the comment writers are an oracle.
 """
 import os
+import re
 
 from vlib import common, lexcheck, pipeline, unc
 from props import c02
@@ -119,6 +120,25 @@ def run(ctx):
                         key = {"file": os.path.relpath(j.inp, common.REPO), "cfg": os.path.relpath(j.cfg, common.REPO), "kind": "comment-or-literal"}
                     if ctx.violation("%s [run %s]" % (why, j.name), c02._replay(j), key=key, found_input=True):
                         obad += 1
+        # ISO C splices a line only when the backslash is the very last character: the number of `//` lines that end in a
+        # backslash immediately before the line break must not change (trimming a blank after that backslash would make the
+        # next line part of the comment) -- independent of how a lexer treats backslash-blank-newline
+        sbad = 0
+        for j in fam:
+            def strict(data):
+                n = 0
+                for ln in re.split(rb"\r\n|\r|\n", data):
+                    k = ln.find(b"//")
+                    if k >= 0 and ln.endswith(b"\\") and b'"' not in ln[:k]:
+                        n += 1
+                return n
+            a, b = strict(open(j.inp, "rb").read()), strict(j.res["out"])
+            if b > a:
+                sbad += 1
+                if ctx.violation("%d line comment(s) of the output end in a backslash directly before the line break, %d in the input: a trailing "
+                                 "blank after the backslash was trimmed, the next line is now part of the comment [run %s]" % (b, a, j.name),
+                                 c02._replay(j), key=None, found_input=True):
+                    obad += 1
         ctx.oblige("direct oracle: literals byte-identical, comments identical up to permitted layout, same order (%d runs)" % len(fam),
                    obad == 0, "oracle", "%d failures" % obad)
         if jobs:
